@@ -11,7 +11,7 @@ def dump(o):
 
 def _d(o, out):
     if o is None or isinstance(o, str):
-        out.append(MARK[o])
+        out.append(MARK.get(o, '(1)'))          # any other string where a number belongs: not a number
     elif o is True:
         out.append('1')
     elif o is False:
@@ -34,7 +34,7 @@ def _d(o, out):
 def to_coq(o):
     """the same tree as a Gallina term of type sx (for the vm_compute cross-check)."""
     if o is None or isinstance(o, str):
-        return {'()': 'L []', '(0)': 'L [A 0]', '(1)': 'L [A 1]', '(2)': 'L [A 2]', '(9)': 'L [A 9]'}[MARK[o]]
+        return {'()': 'L []', '(0)': 'L [A 0]', '(1)': 'L [A 1]', '(2)': 'L [A 2]', '(9)': 'L [A 9]'}[MARK.get(o, '(1)')]
     if o is True:
         return 'A 1'
     if o is False:
